@@ -294,3 +294,38 @@ V('c09-wrong-exc', 'C09', 'C09.R1',
   (MOFF, "    if p is None:\n        raise MOFParseError(msg='Unexpected end of MOF')", "    if p is None:\n        raise SyntaxError('Unexpected end of MOF')"), 'SyntaxError')
 V('c09-swallow-wrap', 'C09', 'C09.R2',
   (MOFF, "        # Handle exceptions from ModifyClass.\n        except CIMError as ce2:", "        # Handle exceptions from ModifyClass.\n        except MOFCompileError as ce2:"), 'p_mp_createClass')
+
+# ---- C02 ------------------------------------------------------------------
+TPF = 'pywbem/_tupleparse.py'
+V('c02-overflow', 'C02', 'C02.R4',
+  (TPF, "        except (ValueError, OverflowError) as exc:", "        except ValueError as exc:"), 'OverflowError')
+V('c02-null-array', 'C02', 'C02.R1',
+  (TPF, "        if data is None:\n            return None\n\n        if cimtype == 'string':", "        if cimtype == 'string':"), 'assert data is not None')
+V('c02-arraysize', 'C02', 'C02.R4',
+  (TPF, "        try:\n            return int(array_size)\n        except ValueError:", "        try:\n            return int(array_size)\n        except TypeError:"), 'int(array_size)')
+V('c02-code', 'C02', 'C02.R4',
+  (OPSF, "            try:\n                code = int(err[1]['CODE'])\n            except ValueError:\n", "            try:\n                code = int(err[1]['CODE'])\n            except KeyError:\n", 3),
+  "int(err[1]['CODE'])")
+V('c02-paramtype-key', 'C02', 'C02.R3',
+  (OPSF, "                tup_tree[0][1].get('PARAMTYPE', None))", "                tup_tree[0][1]['PARAMTYPE'])"), 'PARAMTYPE')
+V('c02-checknode-optional', 'C02', 'C02.R3',
+  (TPF, "        self.check_node(tup_tree, 'INSTANCE', ('CLASSNAME',), ('xml:lang',),", "        self.check_node(tup_tree, 'INSTANCE', (), ('CLASSNAME', 'xml:lang',),"), 'CLASSNAME')
+V('c02-error-code-optional', 'C02', 'C02.R3',
+  (TPF, "        self.check_node(tup_tree, 'ERROR', ('CODE',), ('DESCRIPTION',),", "        self.check_node(tup_tree, 'ERROR', (), ('CODE', 'DESCRIPTION',),"), "CODE")
+V('c02-handler-narrow', 'C02', 'C02.R4',
+  (TPF, "            value = CIMDateTime(data)\n        except ValueError as exc:", "            value = CIMDateTime(data)\n        except TypeError as exc:"),
+  'unpack_datetime')
+V('c02-no-request-data', 'C02', 'C02.R5',
+  (OPSF, "        except (CIMXMLParseError, XMLParseError) as exce:\n            exce.request_data = self.last_raw_request\n            exce.response_data = self.last_raw_reply\n            exc = exce\n            raise\n        except Exception as exce:\n            exc = exce\n            raise\n        finally:\n            self._last_operation_time = stats.stop_timer(\n                self.last_request_len, self.last_reply_len,\n                self.last_server_response_time, exc)\n            if self._operation_recorders:\n                self.operation_recorder_stage_result(instance, exc)\n\n    def ModifyInstance(",
+         "        except (CIMXMLParseError, XMLParseError) as exce:\n            exce.request_data = self.last_raw_request\n            exc = exce\n            raise\n        except Exception as exce:\n            exc = exce\n            raise\n        finally:\n            self._last_operation_time = stats.stop_timer(\n                self.last_request_len, self.last_reply_len,\n                self.last_server_response_time, exc)\n            if self._operation_recorders:\n                self.operation_recorder_stage_result(instance, exc)\n\n    def ModifyInstance("),
+  'GetInstance')
+V('c02-raw-after-parse', 'C02', 'C02.R5',
+  (OPSF, "        self._last_raw_reply = reply_data\n        self._last_reply_len = len(reply_data)\n\n        # Parse the XML into a tuple tree (may raise CIMXMLParseError or\n        # XMLParseError):\n        tt_ = xml_to_tupletree_sax(reply_data, \"CIM-XML response\")\n        tp = TupleParser(self.conn_id)\n        tup_tree = tp.parse_cim(tt_)\n\n        # Set attributes recording the response, part 2.\n        if self.debug:\n            self._last_reply = None  # will be set upon access\n            self._last_reply_xml_item = reply_data\n\n        # Check the tuple tree\n\n        if tup_tree[0] != 'CIM':\n            raise CIMXMLParseError(\n                _format(\"Expecting CIM element, got {0}\", tup_tree[0]),\n                conn_id=self.conn_id)\n        tup_tree = tup_tree[2]\n\n        if tup_tree[0] != 'MESSAGE':\n            raise CIMXMLParseError(\n                _format(\"Expecting MESSAGE element, got {0}\", tup_tree[0]),\n                conn_id=self.conn_id)\n        tup_tree = tup_tree[2]\n\n        if tup_tree[0] != 'SIMPLERSP':\n            raise CIMXMLParseError(\n                _format(\"Expecting SIMPLERSP element, got {0}\", tup_tree[0]),\n                conn_id=self.conn_id)\n        tup_tree = tup_tree[2]\n\n        if tup_tree[0] != 'IMETHODRESPONSE':",
+         "        self._last_reply_len = len(reply_data)\n\n        # Parse the XML into a tuple tree (may raise CIMXMLParseError or\n        # XMLParseError):\n        tt_ = xml_to_tupletree_sax(reply_data, \"CIM-XML response\")\n        tp = TupleParser(self.conn_id)\n        tup_tree = tp.parse_cim(tt_)\n        self._last_raw_reply = reply_data\n\n        # Set attributes recording the response, part 2.\n        if self.debug:\n            self._last_reply = None  # will be set upon access\n            self._last_reply_xml_item = reply_data\n\n        # Check the tuple tree\n\n        if tup_tree[0] != 'CIM':\n            raise CIMXMLParseError(\n                _format(\"Expecting CIM element, got {0}\", tup_tree[0]),\n                conn_id=self.conn_id)\n        tup_tree = tup_tree[2]\n\n        if tup_tree[0] != 'MESSAGE':\n            raise CIMXMLParseError(\n                _format(\"Expecting MESSAGE element, got {0}\", tup_tree[0]),\n                conn_id=self.conn_id)\n        tup_tree = tup_tree[2]\n\n        if tup_tree[0] != 'SIMPLERSP':\n            raise CIMXMLParseError(\n                _format(\"Expecting SIMPLERSP element, got {0}\", tup_tree[0]),\n                conn_id=self.conn_id)\n        tup_tree = tup_tree[2]\n\n        if tup_tree[0] != 'IMETHODRESPONSE':"),
+  'raw-after-parse')
+V('c02-wrong-error-class', 'C02', 'C02.R1',
+  (TPF, "        raise CIMXMLParseError(\n            _format(\"Invalid boolean value {0!A}\", data),\n            conn_id=self.conn_id)", "        raise ValueError(\n            _format(\"Invalid boolean value {0!A}\", data))"),
+  'unpack_boolean')
+V('c02-methodcall-unwrapped', 'C02', 'C02.R4',
+  (OPSF, "                output_params[p[0]] = rsp_cimvalue(\n                    _format(\"PARAMVALUE {0!A}\", p[0]), p[2], p[1])", "                output_params[p[0]] = cimvalue(p[2], p[1])"),
+  '_methodcall')
